@@ -85,10 +85,13 @@ type c14Case struct {
 	Delta  time.Duration   // slow / fast: when the agency holder moves
 	Deltas []time.Duration // progress / loop: delay before each step
 	Picks  []int           // progress: which listed message to take at each step
+	// UseFunc: the scaled timeouts are installed as TimeoutFunc (Timeout == 0)
+	// in the source map before StateMap.Copy() is taken
+	UseFunc bool
 }
 
 func (c c14Case) String() string {
-	return fmt.Sprintf("%s/%s state=%s kind=%s delta=%v", c.Spec.Name, roleName(c.Role), c.Target, c.Kind, c.Delta)
+	return fmt.Sprintf("%s/%s state=%s kind=%s delta=%v timeoutfunc=%v", c.Spec.Name, roleName(c.Role), c.Target, c.Kind, c.Delta, c.UseFunc)
 }
 
 type c14Result struct {
@@ -106,8 +109,12 @@ func hasTimeout(e protocol.StateMapEntry) bool { return e.Timeout > 0 || e.Timeo
 
 // scaledMap copies the map. short lists the states whose timeout becomes T
 // (nil: every timed state); every other timed state gets the far timeout.
-// A state that uses TimeoutFunc keeps using a TimeoutFunc.
-func scaledMap(sm protocol.StateMap, short func(protocol.State) bool) protocol.StateMap {
+// A state that uses TimeoutFunc keeps using a TimeoutFunc; with useFunc every
+// timed state gets its (scaled) timeout as a TimeoutFunc with Timeout == 0.
+// The scaled source map is then passed through StateMap.Copy(), exactly as the
+// real clients and servers do (`StateMap: StateMap.Copy()`), and the copy is
+// what the Protocol under test is configured with.
+func scaledMap(sm protocol.StateMap, short func(protocol.State) bool, useFunc bool) protocol.StateMap {
 	out := protocol.StateMap{}
 	for s, e := range sm {
 		if hasTimeout(e) {
@@ -115,7 +122,7 @@ func scaledMap(sm protocol.StateMap, short func(protocol.State) bool) protocol.S
 			if short == nil || short(s) {
 				d = c14T
 			}
-			if e.TimeoutFunc != nil {
+			if e.TimeoutFunc != nil || useFunc {
 				dd := d
 				e.TimeoutFunc = func() time.Duration { return dd }
 				e.Timeout = 0
@@ -125,7 +132,7 @@ func scaledMap(sm protocol.StateMap, short func(protocol.State) bool) protocol.S
 		}
 		out[s] = e
 	}
-	return out
+	return out.Copy()
 }
 
 // pathTo finds a shortest message path from the initial state to target;
@@ -253,10 +260,10 @@ func attemptC14Case(c c14Case, probe *noiseProbe) (res c14Result) {
 	sp := c.Spec
 	var sm protocol.StateMap
 	switch c.Kind {
-	case "slow", "fast", "loop":
-		sm = scaledMap(sp.Map, func(s protocol.State) bool { return statesEq(s, c.Target) })
+	case "slow", "fast", "loop", "stall":
+		sm = scaledMap(sp.Map, func(s protocol.State) bool { return statesEq(s, c.Target) }, c.UseFunc)
 	default:
-		sm = scaledMap(sp.Map, nil)
+		sm = scaledMap(sp.Map, nil, c.UseFunc)
 	}
 	startAt := time.Now()
 	r := newRig(sp, sm, c.Role, nil, nil)
@@ -320,7 +327,7 @@ func attemptC14Case(c c14Case, probe *noiseProbe) (res c14Result) {
 	enteredAt := startAt
 	if c.Kind != "initial" && c.Kind != "progress" {
 		// slow/fast on the initial state means: the initial state entered again
-		path, okPath := pathTo(sp, c.Target, c.Kind == "slow" || c.Kind == "fast")
+		path, okPath := pathTo(sp, c.Target, c.Kind == "slow" || c.Kind == "fast" || c.Kind == "stall")
 		if !okPath {
 			return discard("no_path")
 		}
@@ -477,6 +484,43 @@ func attemptC14Case(c c14Case, probe *noiseProbe) (res c14Result) {
 		}
 		return c14Result{Verdict: "pass", Named: strings.Contains(terr.Error(), c.Target.Name)}
 
+	case "stall":
+		// nobody moves at all. A timeout that fires late is never a violation;
+		// only "no timeout within 50T + 5 s" is (no load can explain that).
+		stallBound := 50*c14T + 5*time.Second
+		r.waitFor(time.Until(enteredAt.Add(stallBound)), func() bool { return len(r.errs) > 0 })
+		settle(time.Millisecond)
+		snap := r.snap()
+		if v, bad := early(snap); bad {
+			return v
+		}
+		for _, e := range snap.Errs {
+			if isTimeoutErr(e) {
+				if !r.waitDone(30 * time.Second) {
+					return c14Result{Verdict: "violation", Key: keyBase + "stall:not-stopped",
+						What: fmt.Sprintf("timeout error %q reported but DoneChan still open 30s later", e), Obj: obj(snap, nil)}
+				}
+				return c14Result{Verdict: "pass", Named: strings.Contains(e.Error(), c.Target.Name)}
+			}
+		}
+		if len(snap.Errs) > 0 {
+			return discard("other_error")
+		}
+		how := "Timeout"
+		if e := sm[c.Target]; c.UseFunc || sp.Map[c.Target].TimeoutFunc != nil {
+			how = "TimeoutFunc"
+			if e.TimeoutFunc == nil {
+				how = "TimeoutFunc (lost by StateMap.Copy(): the copy handed to the Protocol has TimeoutFunc == nil and Timeout == 0)"
+			}
+		}
+		key := keyBase + "stall:never-times-out"
+		if how != "Timeout" {
+			key = keyBase + "stall:timeoutfunc:never-times-out"
+		}
+		return c14Result{Verdict: "violation", Key: key,
+			What: fmt.Sprintf("state %s has a %v timeout given as %s in the source map that went through StateMap.Copy(); the agency holder stalled for %v and no timeout error was reported", c.Target, c14T, how, stallBound),
+			Obj:  obj(snap, map[string]any{"goroutines": goroutineDump()})}
+
 	case "loop":
 		// the agency holder keeps sending a message that leads back into the timed
 		// state, each within 0.2T..0.5T of the previous one; the stay exceeds T.
@@ -594,12 +638,13 @@ func attemptC14Case(c c14Case, probe *noiseProbe) (res c14Result) {
 
 func TestC14(t *testing.T) {
 	rec := evi.New(t, "C14", evi.Exploration,
-		"targets = every reachable state with agency of every exported state map x both roles (enumerated). The state map is copied and its timeouts scaled: T=150ms for the state(s) under test. Case kinds: slow (timed state, agency holder - raw peer or harness caller - moves after delta in [1.8T,2.5T]: a timeout error must be reported and the protocol must stop, the late message must not be processed), fast (delta in [0,0.5T]: no timeout error up to 1.6T after entry, i.e. also no stale timer), untimed (state without timeout reached quickly through states that all have timeout T: silence for 4T), initial (the initial state given timeout T: silence for 4T after Start), progress (all timed states T, 3-8 steps each after <= 0.5T: no timeout although the total exceeds T), loop (timed state with an edge back into itself, e.g. block-fetch Streaming/Block, in both roles so that the sender of the self-loop message is the raw peer or the harness caller: messages at gaps of 0.2T-0.5T for a stay of 1.6T-2.5T must not produce a timeout - each message restarts the limit - and a stall afterwards must still time out). client (a real protocol client - block-fetch, chain-sync, handshake, keep-alive, leios-*, local-state-query, local-tx-monitor, local-tx-submission, peer-sharing, local-message-*, message-submission - whose timeout option is set to T is walked into the state the option belongs to and the server stalls: the timeout must fire, not before 0.9T). First a sweep over all targets with deltas derived from the seed, then the client table, then rapid-drawn batches; 8 cases run concurrently. Scheduling-noise guard: times are measured (hook event time of the state entry, time of the error, time of the move) and a probe goroutine measures wake-up lateness; a verdict that noise could explain is discarded and counted, never reported. Sound-under-load rule: a timeout error less than 0.9T after the last state change is always a violation. Non-trivial = a slow or fast or progress case that reached a verdict; distinct by (map, role, state, kind, delta bucket of 10ms).")
+		"targets = every reachable state with agency of every exported state map x both roles (enumerated). The state map is copied and its timeouts scaled: T=150ms for the state(s) under test. Case kinds: slow (timed state, agency holder - raw peer or harness caller - moves after delta in [1.8T,2.5T]: a timeout error must be reported and the protocol must stop, the late message must not be processed), fast (delta in [0,0.5T]: no timeout error up to 1.6T after entry, i.e. also no stale timer), untimed (state without timeout reached quickly through states that all have timeout T: silence for 4T), initial (the initial state given timeout T: silence for 4T after Start), progress (all timed states T, 3-8 steps each after <= 0.5T: no timeout although the total exceeds T), stall (timed state, nobody moves: the timeout error must come; only 'none within 50T+5s' is a violation), every scaled map is built as a source map and handed to the Protocol through StateMap.Copy() as the real clients do, and in half of the cases the timeouts are installed as TimeoutFunc with Timeout==0; a structural oracle compares every package-level state map with its Copy() (Timeout, TimeoutFunc nil-ness and range, limits, agency, edges); loop (timed state with an edge back into itself, e.g. block-fetch Streaming/Block, in both roles so that the sender of the self-loop message is the raw peer or the harness caller: messages at gaps of 0.2T-0.5T for a stay of 1.6T-2.5T must not produce a timeout - each message restarts the limit - and a stall afterwards must still time out). client (a real protocol client - block-fetch, chain-sync, handshake, keep-alive, leios-*, local-state-query, local-tx-monitor, local-tx-submission, peer-sharing, local-message-*, message-submission - whose timeout option is set to T is walked into the state the option belongs to and the server stalls: the timeout must fire, not before 0.9T). First a sweep over all targets with deltas derived from the seed, then the client table, then rapid-drawn batches; 8 cases run concurrently. Scheduling-noise guard: times are measured (hook event time of the state entry, time of the error, time of the move) and a probe goroutine measures wake-up lateness; a verdict that noise could explain is discarded and counted, never reported. Sound-under-load rule: a timeout error less than 0.9T after the last state change is always a violation. Non-trivial = a slow or fast or progress case that reached a verdict; distinct by (map, role, state, kind, delta bucket of 10ms).")
 	defer rec.Finish()
 	rec.Assume("the verif tracer emits the transition event before the state loop arms the timer of the new state",
 		"Go timers never fire early",
 		"a re-entered initial state that has a timeout is treated like any other timed state (only the very first entry is exempt)")
 	validateSpecs(t)
+	checkStateMapCopies(rec)
 	targets := c14Targets()
 	probe := startProbe()
 	defer probe.close()
@@ -627,7 +672,11 @@ func TestC14(t *testing.T) {
 			if c.Kind == "progress" || c.Kind == "loop" {
 				desc += fmt.Sprint(c.Picks, c.Deltas)
 			}
-			if c.Kind == "slow" || c.Kind == "fast" || c.Kind == "progress" || c.Kind == "loop" {
+			if c.UseFunc {
+				desc += "/func"
+				rec.Class("timeout_given_as_TimeoutFunc")
+			}
+			if c.Kind == "slow" || c.Kind == "fast" || c.Kind == "progress" || c.Kind == "loop" || c.Kind == "stall" {
 				rec.NonTrivial(desc, map[string]any{"protocol": c.Spec.Name, "role": roleName(c.Role), "state": c.Target.String(),
 					"kind": c.Kind, "delta": c.Delta.String(), "T": c14T.String(), "verdict": res.Verdict})
 			}
@@ -675,8 +724,9 @@ func TestC14(t *testing.T) {
 			}
 		case tg.Timed:
 			sweep = append(sweep,
-				c14Case{Spec: tg.Spec, Role: tg.Role, Target: tg.State, Kind: "slow", Delta: slowDelta(u)},
-				c14Case{Spec: tg.Spec, Role: tg.Role, Target: tg.State, Kind: "fast", Delta: fastDelta(u >> 20)})
+				c14Case{Spec: tg.Spec, Role: tg.Role, Target: tg.State, Kind: "slow", Delta: slowDelta(u), UseFunc: i%2 == 0},
+				c14Case{Spec: tg.Spec, Role: tg.Role, Target: tg.State, Kind: "fast", Delta: fastDelta(u >> 20), UseFunc: i%2 == 1},
+				c14Case{Spec: tg.Spec, Role: tg.Role, Target: tg.State, Kind: "stall", UseFunc: true})
 		default:
 			sweep = append(sweep, c14Case{Spec: tg.Spec, Role: tg.Role, Target: tg.State, Kind: "untimed"})
 		}
@@ -807,11 +857,13 @@ func TestC14(t *testing.T) {
 				batch[i] = c
 			case k < 4:
 				tg := timed[rapid.IntRange(0, len(timed)-1).Draw(rt, "target")]
-				batch[i] = c14Case{Spec: tg.Spec, Role: tg.Role, Target: tg.State, Kind: "slow",
+				batch[i] = c14Case{Spec: tg.Spec, Role: tg.Role, Target: tg.State, Kind: rapid.SampledFrom([]string{"slow", "slow", "stall"}).Draw(rt, "slowOrStall"),
+					UseFunc: rapid.Bool().Draw(rt, "useFunc"),
 					Delta: time.Duration(rapid.Int64Range(int64(c14T*18/10), int64(c14T*25/10)).Draw(rt, "delta"))}
 			case k < 7:
 				tg := timed[rapid.IntRange(0, len(timed)-1).Draw(rt, "target")]
 				batch[i] = c14Case{Spec: tg.Spec, Role: tg.Role, Target: tg.State, Kind: "fast",
+					UseFunc: rapid.Bool().Draw(rt, "useFunc"),
 					Delta: time.Duration(rapid.Int64Range(0, int64(c14T/2)).Draw(rt, "delta"))}
 			default:
 				sp := timedSpecs[rapid.IntRange(0, len(timedSpecs)-1).Draw(rt, "spec")]
